@@ -59,7 +59,7 @@ func inputsFor(kind string) []string {
 	case "noext-ny":
 		return []string{"dates", "fallback3", "conflict"}
 	}
-	return []string{"veh3", "fallback3", "plain", "dates"}
+	return []string{"veh3", "wide", "fallback3", "plain", "dates"}
 }
 
 // objects builds the options of the goroutines according to the topology.
@@ -123,8 +123,16 @@ func InitReferences() {
 	}
 }
 
+// Reference returns what parsing the input alone returns; it is computed (sequentially) the first time it is asked for.
+// In race mode that is after the first concurrent run: nothing in the process has parsed anything before the goroutines
+// start, so whatever a first call initialises is initialised under concurrency.
 func Reference(name, kind string) (string, string) {
-	r := references[name+"|"+kind]
+	r, ok := references[name+"|"+kind]
+	if !ok {
+		res, errs, _ := parseSafely(append([]byte(nil), sess.Inputs[name]...), sess.NewObj(kind).RT)
+		r = [2]string{res, errs}
+		references[name+"|"+kind] = r
+	}
 	return r[0], r[1]
 }
 
